@@ -11,6 +11,9 @@ import (
 // Key is `{src_ip}_{dst_ip}_{src_ip}_{src_port}_{incremental_counter}`
 type requestResponseMatcher struct {
 	openMessagesMap *sync.Map
+	// registerMutex makes the look-up of the counterpart and the store of the new message
+	// one atomic step; otherwise both halves can miss each other and the pair is lost.
+	registerMutex sync.Mutex
 }
 
 func createResponseRequestMatcher() api.RequestResponseMatcher {
@@ -38,6 +41,8 @@ func (matcher *requestResponseMatcher) registerRequest(ident string, request *Re
 		},
 	}
 
+	matcher.registerMutex.Lock()
+	defer matcher.registerMutex.Unlock()
 	if response, found := matcher.openMessagesMap.LoadAndDelete(ident); found {
 		// Type assertion always succeeds because all of the map's values are of api.GenericMessage type
 		responseRedisMessage := response.(*api.GenericMessage)
@@ -67,6 +72,8 @@ func (matcher *requestResponseMatcher) registerResponse(ident string, response *
 		},
 	}
 
+	matcher.registerMutex.Lock()
+	defer matcher.registerMutex.Unlock()
 	if request, found := matcher.openMessagesMap.LoadAndDelete(ident); found {
 		// Type assertion always succeeds because all of the map's values are of api.GenericMessage type
 		requestRedisMessage := request.(*api.GenericMessage)
